@@ -1087,19 +1087,25 @@ theorem debit_le {e e' : Evm} {t : Token} {a : Acct} {n : Nat} (h : debit e t a 
   · omega
 
 /-- paying the relay fee out of the packet contract's escrow lowers its balance by exactly the fee -/
-theorem feePay_bal (bal : Token → Acct → Nat) (ft : Token) (fa : Nat) (hle : fa ≤ bal ft acPacket) (F : Token) :
+theorem feePay_bal (bal : Token → Acct → Nat) (ft : Token) (fa : Nat) (r : Acct) (hle : fa ≤ bal ft acPacket) (F : Token) :
     bal F acPacket ≤
-      upd2 (upd2 bal ft acPacket (bal ft acPacket - fa)) ft acRelayer
-        (upd2 bal ft acPacket (bal ft acPacket - fa) ft acRelayer + fa) F acPacket + (if ft = F then fa else 0) := by
-  have hpr : ¬ acPacket = acRelayer := by decide
-  simp only [upd2_app, hpr, and_false, ↓reduceIte, and_true]
-  by_cases hF : ft = F
-  · subst hF; simp; omega
-  · have hF' : ¬ F = ft := fun h => hF h.symm
-    simp [hF, hF']
+      upd2 (upd2 bal ft acPacket (bal ft acPacket - fa)) ft r
+        (upd2 bal ft acPacket (bal ft acPacket - fa) ft r + fa) F acPacket + (if ft = F then fa else 0) := by
+  by_cases hpr : acPacket = r
+  · subst hpr
+    simp only [upd2_app]
+    by_cases hF : ft = F
+    · subst hF; simp; omega
+    · have hF' : ¬ F = ft := fun h => hF h.symm
+      simp [hF, hF']
+  · simp only [upd2_app, hpr, and_false, ↓reduceIte, and_true]
+    by_cases hF : ft = F
+    · subst hF; simp; omega
+    · have hF' : ¬ F = ft := fun h => hF h.symm
+      simp [hF, hF']
 
-theorem ack_eff {cfg : Cfg} {me : ChainId} {c c' : Chain} {p : Packet} {code : Nat}
-    (h : ackHandler cfg me c p code = some c') : p.src = me ∧ AckEff cfg c c' p code := by
+theorem ack_eff {cfg : Cfg} {me : ChainId} {c c' : Chain} {p : Packet} {code : Nat} {rel : Option Acct}
+    (h : ackHandler cfg me c p code rel = some c') : p.src = me ∧ AckEff cfg c c' p code := by
   unfold ackHandler at h
   split at h
   · cases h
@@ -1112,11 +1118,14 @@ theorem ack_eff {cfg : Cfg} {me : ChainId} {c c' : Chain} {p : Packet} {code : N
   simp only at h
   split at h
   · cases h
+  rename_i relayer
+  split at h
+  · cases h
   rename_i e1 hdeb
   have hle := debit_le hdeb
   have h1 := debit_some hdeb
   subst h1
-  have hesc1 := feePay_bal c.evm.bal (c.evm.fee p.dst p.seq).1 (c.evm.fee p.dst p.seq).2 hle
+  have hesc1 := feePay_bal c.evm.bal (c.evm.fee p.dst p.seq).1 (c.evm.fee p.dst p.seq).2 relayer hle
   split at h
   · cases h
   rename_i e2 hr
@@ -1441,6 +1450,18 @@ theorem findPacket_some {l : List Packet} {dst : ChainId} {seq : Nat} {p : Packe
   simp at h2
   exact ⟨h1, h2.1, h2.2⟩
 
+/-- the invariants look at the configuration and the chains only — not at the relayer registry or at the relayer
+names written into acknowledgements -/
+theorem inv_ext {w1 w2 : World} (hc : w1.cfg = w2.cfg) (hch : w1.chains = w2.chains) (h : Inv w2) : Inv w1 := by
+  obtain ⟨hw, hcons⟩ := h
+  refine ⟨⟨?_, ?_, ?_, ?_, ?_⟩, ?_⟩
+  · rw [hc]; exact hw.cfg
+  · rw [hc, hch]; exact hw.pkt
+  · rw [hch]; exact hw.keys
+  · rw [hch]; exact hw.acks
+  · rw [hch]; exact hw.rcpt
+  · intro A B T hne; rw [hc, hch]; exact hcons A B T hne
+
 theorem inv_step (w : World) (s : Step) (h : Inv w) : Inv (step true w s) := by
   cases s with
   | batch i sender strict legs =>
@@ -1455,7 +1476,10 @@ theorem inv_step (w : World) (s : Step) (h : Inv w) : Inv (step true w s) := by
     · rename_i c hs
       obtain ⟨p, e⟩ := send_eff hs
       exact ⟨wf_send w i c p h.1 e, conserved_send w i c p h.1 h.2 e⟩
-  | recv src dst seq =>
+  | register i addr rank chains =>
+    simp only [step]
+    exact inv_ext (w2 := w) rfl rfl h
+  | recv src dst seq signer =>
     simp only [step]
     split
     · exact h
@@ -1463,7 +1487,11 @@ theorem inv_step (w : World) (s : Step) (h : Inv w) : Inv (step true w s) := by
     obtain ⟨hmem, hpd, hps⟩ := findPacket_some hf
     split
     · exact h
+    rename_i tag htag
+    split
+    · exact h
     rename_i c hr
+    refine inv_ext (w2 := w.set dst c) rfl rfl ?_
     obtain ⟨hd, hrc, code, cR, eR, hfin⟩ := recv_eff hr
     have hsrc : p.src = src := (h.1.pkt src p hmem).1
     have hmem' : p ∈ (w.chains p.src).commits := by rw [hsrc]; exact hmem
@@ -1537,11 +1565,18 @@ def evm0 : Evm :=
     bal := fun t a => if t = 1 ∧ a = 0 then 10000 else 0
     allow := fun t a => if t = 1 ∧ a = 0 then 100000 else 0 }
 
+/-- relayer registry of the concrete worlds: on chain 0 account 5 is the one to pay for acknowledgements written on
+chains 1 and 2 by the relayer that goes by name 7 there; on the other chains account 0 relays for chain 0 as "7" -/
+def reg0 : ChainId → Registry := fun i =>
+  if i = 0 then [{ addr := acRelayer, rank := 0, chains := [(1, 7), (2, 7)] }]
+  else [{ addr := 0, rank := 0, chains := [(0, 7)] }]
+
 def w0 : World :=
   { cfg := fun i => if i = 0 then cfgA else cfgB,
     chains := fun i =>
       if i = 0 then { Chain.empty with evm := evm0 }
-      else Chain.empty }
+      else Chain.empty,
+    reg := reg0, ackTag := fun _ _ _ => 0 }
 
 theorem inv_w0 : Inv w0 := by
   refine ⟨⟨?_, ?_, ?_, ?_, ?_⟩, ?_⟩
@@ -1583,11 +1618,11 @@ def sendArgs (call : Call) (receiver : Acct) : SendArgs :=
   { dst := 1, token := 1, amount := 2000, receiver := receiver, call := call, feeToken := 1, feeAmount := 0, callback := false }
 
 /-- F13: call data fails inside the EVM (result code 3, transfer part not reverted). -/
-def f13Steps : List Step := [.send 0 0 (sendArgs (.plain .fail) 6), .recv 0 1 1, .ack 0 1 1]
+def f13Steps : List Step := [.send 0 0 (sendArgs (.plain .fail) 6), .recv 0 1 1 0, .ack 0 1 1]
 /-- F1: a post-transaction hook fails after the EVM commit (staking event with an invalid validator). -/
-def f1Steps : List Step := [.send 0 0 (sendArgs (.plain .hookFail) 6), .recv 0 1 1, .ack 0 1 1]
+def f1Steps : List Step := [.send 0 0 (sendArgs (.plain .hookFail) 6), .recv 0 1 1 0, .ack 0 1 1]
 /-- F1, the reproduced variant: the call data makes the agent forward the tokens to chain 3, which has no client. -/
-def f1AgentSteps : List Step := [.send 0 0 (sendArgs (.agent 0 0 3 1000) acAgent), .recv 0 1 1, .ack 0 1 1]
+def f1AgentSteps : List Step := [.send 0 0 (sendArgs (.agent 0 0 3 1000) acAgent), .recv 0 1 1 0, .ack 0 1 1]
 
 theorem f13_values :
     ((run false w0 f13Steps).chains 0).evm.out 1 1 = 0 ∧ ((run false w0 f13Steps).chains 1).evm.bindAmt 2 0 = 2000 ∧
@@ -1655,7 +1690,7 @@ theorem repaired_witnesses :
   decide
 
 /-- non-vacuity of `conserved_run`: a non-trivial history from the concrete world -/
-example : Conserved (run true w0 (f13Steps ++ [.send 0 0 (sendArgs .none 7), .recv 0 1 2, .ack 0 1 2])) :=
+example : Conserved (run true w0 (f13Steps ++ [.send 0 0 (sendArgs .none 7), .recv 0 1 2 0, .ack 0 1 2])) :=
   conserved_run w0 _ inv_w0
 
 /-- With the repaired handler an error acknowledgement leaves NO token or contract effect on the destination:
@@ -1700,6 +1735,10 @@ def Pending (w : World) (S D : ChainId) (q : Nat) : Prop :=
 
 /-- ghost-counter invariant: `credited` on the destination and `refunded` on the source against the
 acknowledgement the destination wrote -/
+theorem pending_ext {w1 w2 : World} (hch : w1.chains = w2.chains) (S D : ChainId) (q : Nat) :
+    Pending w1 S D q ↔ Pending w2 S D q := by
+  unfold Pending; rw [hch]
+
 structure GInv (w : World) : Prop where
   g1 : ∀ S D q, (w.chains D).evm.credited S q = if (w.chains D).acks S q = some 0 then 1 else 0
   g2 : ∀ S D q, (w.chains S).evm.refunded D q ≤ 1 ∧
@@ -1708,6 +1747,19 @@ structure GInv (w : World) : Prop where
   g8 : ∀ S D q, (w.chains S).nextSeq D ≤ q → (w.chains S).evm.refunded D q = 0
   g7 : ∀ S D q, 0 < q → q < (w.chains S).nextSeq D →
         Pending w S D q ∨ (w.chains D).acks S q = some 0 ∨ (w.chains S).evm.refunded D q = 1
+
+theorem ginv_ext {w1 w2 : World} (hch : w1.chains = w2.chains) (g : GInv w2) : GInv w1 := by
+  refine ⟨?_, ?_, ?_, ?_, ?_⟩
+  · rw [hch]; exact g.g1
+  · rw [hch]; exact g.g2
+  · rw [hch]; exact g.g3
+  · rw [hch]; exact g.g8
+  · intro S D q h0 hq
+    rw [hch] at hq ⊢
+    rcases g.g7 S D q h0 hq with h | h | h
+    · exact Or.inl ((pending_ext hch S D q).mpr h)
+    · exact Or.inr (Or.inl h)
+    · exact Or.inr (Or.inr h)
 
 theorem set_proj {α} (w : World) (X : ChainId) (c' : Chain) (f : Chain → α) (hf : f c' = f (w.chains X)) (Y : ChainId) :
     f ((w.set X c').chains Y) = f (w.chains Y) := by
@@ -1990,7 +2042,10 @@ theorem full_step (w : World) (s : Step) (h : FullInv w) : FullInv (step true w 
     · rename_i c hs
       obtain ⟨p, e⟩ := send_eff hs
       exact ginv_send w i c p g e
-  | recv src dst seq =>
+  | register i addr rank chains =>
+    simp only [step]
+    exact ginv_ext (w2 := w) rfl g
+  | recv src dst seq signer =>
     simp only [step]
     split
     · exact g
@@ -1998,7 +2053,11 @@ theorem full_step (w : World) (s : Step) (h : FullInv w) : FullInv (step true w 
     obtain ⟨hmem, hpd, hps⟩ := findPacket_some hf
     split
     · exact g
+    rename_i tag htag
+    split
+    · exact g
     rename_i c hr
+    refine ginv_ext (w2 := w.set dst c) rfl ?_
     obtain ⟨hd, hrc, code, cR, eR, hfin⟩ := recv_eff hr
     have hsrc : p.src = src := (hw.pkt src p hmem).1
     have hmem' : p ∈ (w.chains p.src).commits := by rw [hsrc]; exact hmem
@@ -2151,6 +2210,9 @@ def escrowFee (c : Chain) (F : Token) : Nat := (c.commits.map (fun p => feeAt c.
 of all packets that are not yet acknowledged (the fee of a pending packet is never lost, never paid early). -/
 def FeeSolvent (w : World) : Prop := ∀ S F, escrowFee (w.chains S) F ≤ (w.chains S).evm.bal F acPacket
 
+theorem feeSolvent_ext {w1 w2 : World} (hch : w1.chains = w2.chains) (fs : FeeSolvent w2) : FeeSolvent w1 := by
+  intro S F; rw [hch]; exact fs S F
+
 theorem sum_map_congr {α} (f g : α → Nat) : ∀ l : List α, (∀ x ∈ l, f x = g x) → (l.map f).sum = (l.map g).sum
   | [], _ => rfl
   | x :: xs, h => by
@@ -2254,7 +2316,10 @@ theorem fs_step (w : World) (s : Step) (h : Inv w) (fs : FeeSolvent w) : FeeSolv
     · rename_i c hs
       obtain ⟨p, e⟩ := send_eff hs
       exact fs_send w i c p h.1 fs e
-  | recv src dst seq =>
+  | register i addr rank chains =>
+    simp only [step]
+    exact feeSolvent_ext (w2 := w) rfl fs
+  | recv src dst seq signer =>
     simp only [step]
     split
     · exact fs
@@ -2262,7 +2327,11 @@ theorem fs_step (w : World) (s : Step) (h : Inv w) (fs : FeeSolvent w) : FeeSolv
     obtain ⟨hmem, hpd, hps⟩ := findPacket_some hf
     split
     · exact fs
+    rename_i tag htag
+    split
+    · exact fs
     rename_i c hr
+    refine feeSolvent_ext (w2 := w.set dst c) rfl ?_
     obtain ⟨hd, hrc, code, cR, eR, hfin⟩ := recv_eff hr
     have hsrc : p.src = src := (h.1.pkt src p hmem).1
     have hmem' : p ∈ (w.chains p.src).commits := by rw [hsrc]; exact hmem
@@ -2331,6 +2400,18 @@ structure FInv (w : World) : Prop where
   f3 : ∀ S D q, (w.chains S).evm.feePaid D q ≤ 1
   f4 : ∀ S D q, 0 < q → q < (w.chains S).nextSeq D → Pending w S D q ∨ (w.chains S).evm.feePaid D q = 1
   gR : ∀ S D q, (w.chains D).receipts S q = true → (w.chains D).acks S q ≠ none
+
+theorem finv_ext {w1 w2 : World} (hch : w1.chains = w2.chains) (g : FInv w2) : FInv w1 := by
+  refine ⟨?_, ?_, ?_, ?_, ?_⟩
+  · rw [hch]; exact g.f1
+  · rw [hch]; exact g.f2
+  · rw [hch]; exact g.f3
+  · intro S D q h0 hq
+    rw [hch] at hq ⊢
+    rcases g.f4 S D q h0 hq with h | h
+    · exact Or.inl ((pending_ext hch S D q).mpr h)
+    · exact Or.inr h
+  · rw [hch]; exact g.gR
 
 theorem finv_send (w : World) (X : ChainId) (c' : Chain) (p : Packet) (g : FInv w)
     (e : SendEff (w.cfg X) X (w.chains X) c' p) : FInv (w.set X c') := by
@@ -2534,14 +2615,21 @@ theorem finv_step (w : World) (s : Step) (h : Inv w) (g : FInv w) : FInv (step t
     · rename_i c hs
       obtain ⟨p, e⟩ := send_eff hs
       exact finv_send w i c p g e
-  | recv src dst seq =>
+  | register i addr rank chains =>
+    simp only [step]
+    exact finv_ext (w2 := w) rfl g
+  | recv src dst seq signer =>
     simp only [step]
     split
     · exact g
     rename_i p hf
     split
     · exact g
+    rename_i tag htag
+    split
+    · exact g
     rename_i c hr
+    refine finv_ext (w2 := w.set dst c) rfl ?_
     obtain ⟨hd, hrc, code, cR, eR, hfin⟩ := recv_eff hr
     have g1 := finv_recv w dst cR p code g eR
     rcases hfin with h1 | ⟨p2, e2⟩
@@ -2765,8 +2853,8 @@ theorem agentCallback_ackStatus {e e' : Evm} {p : Packet} (h : agentCallback e p
 /-- **The source settles by the code it is given**: code 0 ⇒ status 1, no refund, escrow and bindings untouched;
 code ≠ 0 ⇒ status 2 and the error settlement (refund of the transfer, if there is one) executed exactly once more;
 in both cases the relay fee is paid once and the commitment is cleared. -/
-theorem ack_settles_by_code (cfg : Cfg) (me : ChainId) (c c' : Chain) (p : Packet) (code : Nat)
-    (h : ackHandler cfg me c p code = some c') :
+theorem ack_settles_by_code (cfg : Cfg) (me : ChainId) (c c' : Chain) (p : Packet) (code : Nat) (rel : Option Acct)
+    (h : ackHandler cfg me c p code rel = some c') :
     c'.commits = c.commits.erase p ∧
     c'.evm.feePaid p.dst p.seq = c.evm.feePaid p.dst p.seq + 1 ∧
     c'.evm.ackStatus p.dst p.seq = (if code = 0 then 1 else 2) ∧
@@ -2786,6 +2874,8 @@ theorem ack_settles_by_code (cfg : Cfg) (me : ChainId) (c c' : Chain) (p : Packe
     split at h
     · cases h
     simp only at h
+    split at h
+    · cases h
     split at h
     · cases h
     rename_i e1 hdeb
@@ -2820,11 +2910,13 @@ theorem ack_settles_by_code (cfg : Cfg) (me : ChainId) (c c' : Chain) (p : Packe
     · intro T; have := e.out T p.dst; simpa [hc0] using this
     · intro V; have := e.bind V p.dst; simpa [hc0] using this
 
-/-- the relayer step hands the source exactly the code the destination stored (ideal light client) -/
+/-- the relayer step hands the source exactly the code the destination stored (ideal light client), and the relayer
+to be paid is the one the SOURCE chain's registry resolves the name written into the acknowledgement to -/
 theorem ack_step_uses_destination_code (w : World) (s d : ChainId) (q : Nat) :
     step true w (.ack s d q) = w ∨
     ∃ p code c', findPacket (w.chains s).commits d q = some p ∧ (w.chains d).acks s q = some code ∧
-      ackHandler (w.cfg s) s (w.chains s) p code = some c' ∧ step true w (.ack s d q) = w.set s c' := by
+      ackHandler (w.cfg s) s (w.chains s) p code ((w.reg s).onTeleport d (w.ackTag d s q)) = some c' ∧
+      step true w (.ack s d q) = w.set s c' := by
   simp only [step]
   split
   · exact Or.inl rfl
@@ -2840,8 +2932,8 @@ theorem ack_step_uses_destination_code (w : World) (s d : ChainId) (q : Nat) :
 /-- **Observation outside C03, modelled as it is**: the error acknowledgement of a packet WITHOUT transfer data is
 rejected by the source every time (`OnAcknowledgePacket` reverts — the endpoint decodes the empty transfer data — and
 with it the whole `MsgAcknowledgement`): nothing changes, … -/
-theorem ack_call_only_error_rejected (cfg : Cfg) (me : ChainId) (c : Chain) (p : Packet) (code : Nat)
-    (hcode : code ≠ 0) (ht : p.transfer = none) : ackHandler cfg me c p code = none := by
+theorem ack_call_only_error_rejected (cfg : Cfg) (me : ChainId) (c : Chain) (p : Packet) (code : Nat) (rel : Option Acct)
+    (hcode : code ≠ 0) (ht : p.transfer = none) : ackHandler cfg me c p code rel = none := by
   unfold ackHandler refund
   simp only [ht, hcode, ↓reduceIte]
   split
@@ -2850,7 +2942,48 @@ theorem ack_call_only_error_rejected (cfg : Cfg) (me : ChainId) (c : Chain) (p :
   · rfl
   split
   · rfl
+  split
+  · rfl
   split <;> rfl
+
+/-- **An acknowledgement whose relayer the source chain can not resolve is rejected**: the handler fails as a whole
+(`ErrRelayerNotFound`) although the keeper had already deleted the commitment and the status had been set — one
+transaction, nothing of it stays. -/
+theorem ack_unknown_relayer_rejected (cfg : Cfg) (me : ChainId) (c : Chain) (p : Packet) (code : Nat) :
+    ackHandler cfg me c p code none = none := by
+  unfold ackHandler
+  split
+  · rfl
+  split
+  · rfl
+  split <;> rfl
+
+/-- … hence the relayer step leaves the WHOLE world unchanged — commitment, escrow, bindings, status, fee escrow —
+whatever the code (error: the refund stays possible; success: the fee stays payable), the packet stays `Pending`,
+and the same acknowledgement is processed once the registry resolves the name again (`step` is a function of the
+current registry: nothing else remembers the failed attempt). -/
+theorem ack_unknown_relayer_unchanged (w : World) (s d : ChainId) (q : Nat)
+    (hrel : (w.reg s).onTeleport d (w.ackTag d s q) = none) : step true w (.ack s d q) = w := by
+  simp only [step]
+  split
+  · rfl
+  split
+  · rfl
+  rw [hrel, ack_unknown_relayer_rejected]
+
+/-- a receive relayed by an account that is not registered as a relayer for the source chain is rejected and
+changes nothing (no receipt, no acknowledgement): another relayer can deliver the packet -/
+theorem recv_unregistered_signer_unchanged (w : World) (s d : ChainId) (q : Nat) (signer : Acct)
+    (hsig : (w.reg d).onOther s signer = none) : step true w (.recv s d q signer) = w := by
+  simp only [step]
+  split
+  · rfl
+  rw [hsig]
+
+/-- registry changes touch nothing but the registry -/
+theorem register_only_registry (w : World) (i : ChainId) (a : Acct) (rank : Nat) (cts : List (ChainId × Nat)) :
+    (step true w (.register i a rank cts)).chains = w.chains ∧ (step true w (.register i a rank cts)).cfg = w.cfg ∧
+    (step true w (.register i a rank cts)).ackTag = w.ackTag := ⟨rfl, rfl, rfl⟩
 
 /-- … so the relayer step leaves the whole world unchanged: commitment, fee escrow, fee-paid counter and status stay
 as they are, the packet stays `Pending` (conservation and fee solvency are not affected — the fee of a packet that
@@ -2861,7 +2994,7 @@ theorem ack_call_only_error_rejected_unchanged (w : World) (s d : ChainId) (q : 
     step true w (.ack s d q) = w ∧ Pending w s d q := by
   obtain ⟨hm, hd, hq⟩ := findPacket_some hf
   refine ⟨?_, ⟨p, hm, hd, hq⟩⟩
-  simp only [step, hf, hack, ack_call_only_error_rejected (w.cfg s) s (w.chains s) p code hcode ht]
+  simp only [step, hf, hack, ack_call_only_error_rejected (w.cfg s) s (w.chains s) p code _ hcode ht]
 
 
 
@@ -2886,7 +3019,7 @@ theorem feeSolvent_w0 : FeeSolvent w0 := by
 acknowledgement, the packet stays committed with its fee in escrow and unpaid -/
 def callOnlySteps : List Step :=
   [.send 0 0 { dst := 1, token := 1, amount := 0, receiver := 0, call := .plain .fail, feeToken := 1, feeAmount := 9, callback := false },
-   .recv 0 1 1, .ack 0 1 1]
+   .recv 0 1 1 0, .ack 0 1 1]
 
 example : ((run true w0 callOnlySteps).chains 0).commits.length = 1 ∧
     ((run true w0 callOnlySteps).chains 0).evm.feePaid 1 1 = 0 ∧
@@ -2997,7 +3130,8 @@ theorem batch_leg_without_client_unchanged (w : World) (i : ChainId) (sender : A
 def cfgA3 : Cfg := { clients := fun j => j == 1 || j == 2, trace := fun _ _ => none, ori := fun _ _ => none, scale := fun _ _ => 0 }
 def w3 : World :=
   { cfg := fun i => if i = 0 then cfgA3 else cfgB,
-    chains := fun i => if i = 0 then { Chain.empty with evm := evm0 } else Chain.empty }
+    chains := fun i => if i = 0 then { Chain.empty with evm := evm0 } else Chain.empty,
+    reg := reg0, ackTag := fun _ _ _ => 0 }
 
 def leg (dst : ChainId) (amt fee : Nat) : Leg :=
   .send { dst := dst, token := 1, amount := amt, receiver := 6, call := .none, feeToken := 1, feeAmount := fee, callback := false }
@@ -3016,5 +3150,24 @@ example :
     ((run true w3 batchSteps).chains 0).nextSeq 1 = 3 ∧ ((run true w3 batchSteps).chains 0).nextSeq 2 = 2 ∧
     ((run true w3 batchSteps).chains 0).evm.bal 1 acPacket = 10 ∧
     ((run true w3 batchSteps).chains 0).evm.bal 1 acForwarder = 2390 := by decide
+
+
+/-! ### a concrete history with a registry change between the receive and the acknowledgement -/
+
+def regSteps1 : List Step :=
+  [.send 0 0 (sendArgs (.plain .fail) 6), .recv 0 1 1 0,
+   .register 0 acRelayer 0 [(2, 7)],      -- chain 0 no longer resolves the name "7" for chain 1
+   .ack 0 1 1]                            -- the error acknowledgement is rejected: nothing changes, the refund stays possible
+def regSteps2 : List Step := regSteps1 ++ [.register 0 acRelayer 0 [(1, 7), (2, 7)], .ack 0 1 1]
+
+example :
+    ((run true w0 regSteps1).chains 0).commits.length = 1 ∧ ((run true w0 regSteps1).chains 0).evm.out 1 1 = 2000 ∧
+    ((run true w0 regSteps1).chains 0).evm.ackStatus 1 1 = 0 ∧ ((run true w0 regSteps1).chains 0).evm.refunded 1 1 = 0 ∧
+    ((run true w0 regSteps1).chains 1).acks 0 1 = some 3 ∧
+    ((run true w0 regSteps2).chains 0).commits.length = 0 ∧ ((run true w0 regSteps2).chains 0).evm.out 1 1 = 0 ∧
+    ((run true w0 regSteps2).chains 0).evm.ackStatus 1 1 = 2 ∧ ((run true w0 regSteps2).chains 0).evm.refunded 1 1 = 1 ∧
+    ((run true w0 regSteps2).chains 0).evm.bal 1 0 = 10000 := by decide
+
+example : Conserved (run true w0 regSteps2) := conserved_run w0 _ inv_w0
 
 end TM.World
